@@ -366,7 +366,7 @@ fn main() {
     ctx.set_rule(
         "(a) labels: every (prediction, truth) pair of label vectors of length n over an alphabet of a symbols, for bool (n<=6 quick / n<=8 thorough), \
          usize {3,7,10,42} and String {cat,ant,dog,bee} (n<=4,a=4 quick / n<=5,a=4 and n=6,a=3 thorough), so label sets that differ between the sides are included; \
-         (b) scores: every score vector of length 1..5 / 1..6 over {0,.25,.5,.75,1} and of length 1..3 / 1..4 over the clip-boundary alphabet {0,1e-8,.5,1-2^-24,1} x every boolean truth vector; \
+         (b) scores: every score vector of length 1..5 / 1..6 over {0,.25,.5,.75,1} and of length 1..3 / 1..4 over the clip-boundary alphabet {0,1e-8,.5,1-2^-24,1}, and every vector of length 1..4 / 1..5 over {-0.0,+0.0,1e-8,.5,1} that contains -0.0 (a valid probability equal to 0), x every boolean truth vector; \
          (c) regression: every prediction vector x every non-constant truth vector of length 2..4 over {-2,-1,0,.5,1,3} in f64 (thorough: also length 5 over {-2,0,.5,1,3}; f32: 2..3 / 2..4), plus a 2-column matrix case for n<=3 / n<=4; \
          (d) silhouette: every multiset of 4..6 / 4..7 points of {0..4} (multiplicity <=2) and every 4..5 / 4..6 subset of the 3x3 lattice x every labelling with 2 (n<=5) or 3 (n>=6) label values; \
          (c2/b2) structured long vectors: regression vectors of every length 6..40 / 6..72 whose absolute errors are every strided permutation (stride coprime to n, every offset [every third in quick]) of n distinct values, and score vectors of length 6..20 / 6..32 with heavy ties ((i*s+o) mod m)/m, m in {2,3,4,7}; \
@@ -434,6 +434,18 @@ fn main() {
     for n in 1..=ctx.pick(3usize, 4usize) {
         for s in en::sequences(n, 5) {
             groups.push(Group::Scores { scores: s.iter().map(|&i| edge_alpha[i]).collect(), perms: "gen" });
+        }
+    }
+
+    // negative zero: Pr::new(-0.0) is a valid probability equal to 0 (alone, next to +0.0, next to a
+    // tiny positive score); the oracle compares values, so -0.0 ties with +0.0 and ranks lowest
+    let negzero_alpha: [f32; 5] = [-0.0, 0.0, 1e-8, 0.5, 1.0];
+    for n in 1..=ctx.pick(4usize, 5usize) {
+        for s in en::sequences(n, 5) {
+            if !s.contains(&0) {
+                continue; // without a -0.0 entry the vector belongs to the families above
+            }
+            groups.push(Group::Scores { scores: s.iter().map(|&i| negzero_alpha[i]).collect(), perms: pm(n, 4) });
         }
     }
 
